@@ -88,6 +88,9 @@ pub fn jobs(thorough: bool) -> Vec<Job> {
 		out.push(Job { input: bracket_nest(&[0x91], b"", &[0x01], d), family: "nesting", srcs: vec![Some(F::Msgpack), None], heavy });
 		out.push(Job { input: bracket_nest(&[0x81, 0xa1, b'k'], b"", &[0x01], d), family: "nesting", srcs: vec![Some(F::Msgpack), None], heavy });
 		out.push(Job { input: bracket_nest(&[0x81], &[0x01], &[0x01], d), family: "nesting", srcs: vec![Some(F::Msgpack), None], heavy });
+		for open in [&[0xdcu8, 0, 1][..], &[0xdd, 0, 0, 0, 1], &[0xde, 0, 1, 0xa1, b'k'], &[0xdf, 0, 0, 0, 1, 0xa1, b'k']] {
+			out.push(Job { input: bracket_nest(open, b"", &[0x01], d), family: "nesting", srcs: vec![Some(F::Msgpack), None], heavy });
+		}
 		// unclosed
 		out.push(Job { input: b"[".repeat(d), family: "nesting", srcs: vec![Some(F::Json), Some(F::Yaml), None], heavy });
 		out.push(Job { input: [0x91].repeat(d), family: "nesting", srcs: vec![Some(F::Msgpack), None], heavy });
